@@ -48,11 +48,16 @@ Notation sig := (sig K).
 Notation tctx := (tctx K).
 
 Definition is_srcp (n : pname) : bool := match n with pIsc | pVoc => true | _ => false end.
+(* K: the mutual operator M·d/dt; its d/dt coefficient is the mutual inductance M (parameter pZM2 of the stamp) *)
+Definition tM (e : tctx) : K * K := if akind_eqb (t_kind e) KS || akind_eqb (t_kind e) KIvp || akind_eqb (t_kind e) KLaplace then t_op e pZM0 else t_op e pZM1.
 Definition ctx_at (s : K) (e : tctx) : sctx K :=
   SCtx K (t_kind e) (t_typ e) (tp0 e) (tp1 e) (tp2 e) (tp3 e) (tc0 e) (tc1 e)
        (tbown e) (tbextra e) (tbctrl e) (tbL1 e) (tbL2 e)
        (t_has_ic e) (t_ctrl_is_vsrc e) (t_has_arg1 e) false
-       (fun n => if is_srcp n then Lval s (t_src e n) else fadd (fst (t_op e n)) (fmul (snd (t_op e n)) s)).
+       (fun n => match n with
+                 | pZM2 => snd (tM e) | pI01 => t_ic1 e | pI02 => t_ic2 e
+                 | _ => if is_srcp n then Lval s (t_src e n) else fadd (fst (t_op e n)) (fmul (snd (t_op e n)) s)
+                 end).
 
 (* kinds in which Lcapy solves in the Laplace domain *)
 Definition skind (k : akind) : bool :=
@@ -98,7 +103,6 @@ Definition tbrel_CCVS (e : tctx) (v ib : Z -> sig) (q : Z) : sig :=
        (if t_ctrl_is_vsrc e then szero else tind (tbctrl e) q (ssub (tvv v (tc0 e)) (tvv v (tc1 e)))).
 (* K: adds -M (D i_2 - i02 δ) to L1's relation and -M (D i_1 - i01 δ) to L2's  (PHYSICS: the
    flux of the partner's initial current is part of the relation) *)
-Definition tM (e : tctx) : K * K := if akind_eqb (t_kind e) KS || akind_eqb (t_kind e) KIvp || akind_eqb (t_kind e) KLaplace then t_op e pZM0 else t_op e pZM1.
 Definition tbrel_K (e : tctx) (v ib : Z -> sig) (q : Z) : sig :=
   sadd (tind (tbL1 e) q (sneg (ssub (app_op (tM e) (ib (tbL2 e))) (sdelta (fmul (snd (tM e)) (t_ic2 e))))))
        (tind (tbL2 e) q (sneg (ssub (app_op (tM e) (ib (tbL1 e))) (sdelta (fmul (snd (tM e)) (t_ic1 e)))))).
@@ -195,14 +199,18 @@ Theorem transfer_CCVS_b e q : gain_const e pArg1 ->
   Lval s (tbrel_CCVS e v ib q) = brel_CCVS (ctx_at s e) Lv Lib q.
 Proof. unfold gain_const. intros H1. unfold tbrel_CCVS, brel_CCVS. cbn [ctx_at ctrl_is_vsrc par c0 c1 bown bctrl is_srcp]. rewrite H1.
   destruct (t_ctrl_is_vsrc e); push; ring. Qed.
-(* the code's K relation has NO initial-current term: it agrees with physics exactly when the
-   coupled inductors carry no initial current (or the analysis is not an initial value problem
-   and the currents start at zero) *)
+(* the stamp carries the flux M·i0k of the partner's initial current in an initial value analysis
+   (kind ivp); in the other Laplace-domain kinds Lcapy has no initial conditions, so physics and
+   code agree there when the coupled inductors start at zero current *)
 Definition k_ic_free (e : tctx) : Prop := t_ic1 e = f0 /\ t_ic2 e = f0.
-Theorem transfer_K e q : akind_eqb (t_kind e) KDc = false -> k_ic_free e ->
+Definition k_ic_ok (e : tctx) : Prop := akind_eqb (t_kind e) KIvp = true \/ k_ic_free e.
+Theorem transfer_K e q : akind_eqb (t_kind e) KDc = false -> k_ic_ok e ->
   Lval s (tbrel_K e v ib q) = brel_K (ctx_at s e) Lv Lib q.
-Proof. intros Hk [H1 H2]. unfold tbrel_K, brel_K, tM, ZM. cbn [ctx_at kind par bL1 bL2 is_srcp]. rewrite Hk, H1, H2.
-  destruct (akind_eqb (t_kind e) KS || akind_eqb (t_kind e) KIvp || akind_eqb (t_kind e) KLaplace); push; ring. Qed.
+Proof. intros Hk Hic. unfold tbrel_K, brel_K, MI, ZM. cbn [ctx_at kind par bL1 bL2 is_srcp]. rewrite Hk.
+  destruct Hic as [Hi|[H1 H2]].
+  - rewrite Hi. unfold tM. rewrite Hi, orb_true_r. cbn [orb]. push. ring.
+  - rewrite H1, H2. unfold tM. destruct (akind_eqb (t_kind e) KIvp); destruct (akind_eqb (t_kind e) KS || true || akind_eqb (t_kind e) KLaplace) eqn:E1;
+      destruct (akind_eqb (t_kind e) KS || false || akind_eqb (t_kind e) KLaplace) eqn:E2; push; ring. Qed.
 Theorem transfer_TF_d e r : gain_const e pAlpha -> Lval s (tdrawn_TF e v ib r) = drawn_TF (ctx_at s e) Lv Lib r.
 Proof. unfold gain_const. intros H. unfold tdrawn_TF, drawn_TF. cbn [ctx_at par p0 p1 p2 p3 bown is_srcp]. rewrite H. push. unfold thru. ring. Qed.
 Theorem transfer_TF_b e q : gain_const e pAlpha -> Lval s (tbrel_TF e v ib q) = brel_TF (ctx_at s e) Lv Lib q.
@@ -220,4 +228,4 @@ Arguments ctx_at {K}. Arguments app_op {K}. Arguments tvv {K}. Arguments tthru {
 Arguments tdrawn_RC {K}. Arguments tbrel_0 {K}. Arguments tdrawn_own {K}. Arguments tbrel_L {K}. Arguments tbrel_V {K}. Arguments tbrel_AM {K}.
 Arguments tdrawn_I {K}. Arguments tbrel_VCVS {K}. Arguments tdrawn_VCCS {K}. Arguments tdrawn_CCCS {K}. Arguments tdrawn_CCVS {K}. Arguments tbrel_CCVS {K}.
 Arguments tbrel_K {K}. Arguments tdrawn_TF {K}. Arguments tbrel_TF {K}. Arguments tdrawn_GY {K}. Arguments tbrel_GY {K}.
-Arguments gain_const {K}. Arguments k_ic_free {K}. Arguments ivp_ic {K}. Arguments tM {K}.
+Arguments gain_const {K}. Arguments k_ic_free {K}. Arguments k_ic_ok {K}. Arguments ivp_ic {K}. Arguments tM {K}.
